@@ -155,4 +155,31 @@ def laws(F):
     L.require_nonzero(p.aspect)
     L.eq(F['m4_perspective'](p), F['m4_frustum'](F['fov_to_perspective'](p)))
     out.append(L)
+    # planar: the z = 0 window of height h and width aspect * h goes to [-1,1]^2, z = -n to -1, z = -f to +1 (for every x, y),
+    # and the centre of projection (w = 0 on the axis) lies at z = 1 / inv_f = (h / 2) cot(fovy / 2) behind the origin
+    two = R.lit(2)
+    L = CertLaw('planar_images', [('p', Planar), ('x', R), ('y', R)])
+    p, x, y = L.vars
+    i = F['planar_inv_f'](p)
+    L.require_nonzero(p.aspect)
+    L.require_nonzero(p.height)
+    L.require_nonzero(p.near - p.far)
+    L.require_nonzero(i * p.near + O)
+    L.require_nonzero(i * p.far + O)
+    m = F['m4_planar'](p)
+    hw = p.aspect * p.height / two
+    hh = p.height / two
+    img = tp(m, P3(hw, hh, R.lit(0)))
+    L.eq(img.x, O)
+    L.eq(img.y, O)
+    img = tp(m, P3(-hw, -hh, R.lit(0)))
+    L.eq(img.x, -O)
+    L.eq(img.y, -O)
+    L.eq(tp(m, P3(x, y, -p.near)).z, -O)
+    L.eq(tp(m, P3(x, y, -p.far)).z, O)
+    tan = fn1('r_tan', val(p.fovy) / two)
+    L.require_nonzero(tan)
+    L.eq(O / i, (p.height / two) / tan)
+    L.eq(m.z.w * (O / i) + m.w.w, R.lit(0))
+    out.append(L)
     return out
